@@ -164,3 +164,33 @@ pub fn vx_file_len(h: &mut File) -> (r: TransactionResult<u64>)
 {
     unimplemented!()
 }
+
+pub open spec fn pdu_is_ack_eof(p: PDU) -> bool {
+    p.payload matches PDUPayload::Directive(Operations::Ack(a)) && a.directive == PDUDirective::EoF
+}
+
+/// stands for `TransactionError::UnexpectedPDU(seq, mode, text)` (built with format!/to_owned)
+#[verifier::external_body]
+pub fn vx_unexpected_pdu() -> TransactionError {
+    unimplemented!()
+}
+
+impl<T: FileStore> SendTransaction<T> {
+    /// stands for the NAK splitter and de-duplication of process_pdu: may change only the NAK queue
+    #[verifier::external_body]
+    pub fn vx_queue_nak_requests(&mut self, nak: NegativeAcknowledgmentPDU)
+        ensures
+            final(self).same_except_naks(*old(self)),
+    {
+        unimplemented!()
+    }
+
+    pub open spec fn same_except_naks(&self, o: Self) -> bool {
+        &&& self.state == o.state && self.send_state == o.send_state && self.status == o.status
+        &&& self.timer == o.timer && self.condition == o.condition && self.config == o.config
+        &&& self.delivery_code == o.delivery_code && self.file_status == o.file_status
+        &&& self.ack == o.ack && self.prompt == o.prompt && self.eof == o.eof && self.header == o.header
+        &&& self.sent_file_size == o.sent_file_size && self.received_file_size == o.received_file_size
+        &&& self.metadata == o.metadata && self.send_eof_indication == o.send_eof_indication
+    }
+}
